@@ -488,10 +488,14 @@ class PathState:
         if verdict != "unsat" and self.sums and not is_canary:
             from . import tensor as T
 
-            if T.close_sums(self, prove):
-                verdict, backend, dt2, model, smt2 = prove(
-                    self.pc, qf, z, extra_pool=list(self.pool) + list(extra_pool), both=self.mode_both)
-                dt += dt2
+            # goal-directed first (reductions occurring in the goal), then the full closure
+            for scope in (z, None):
+                if T.close_sums(self, prove, goal=scope):
+                    verdict, backend, dt2, model, smt2 = prove(
+                        self.pc, qf, z, extra_pool=list(self.pool) + list(extra_pool), both=self.mode_both)
+                    dt += dt2
+                if verdict == "unsat":
+                    break
         if is_canary and verdict in ("sat", "unknown"):
             # a canary only has to be refutable: the hypotheses' ground
             # instances are consistent with its negation
@@ -510,6 +514,8 @@ class PathState:
                 ObligationResult(name, "undecided", backend, dt, detail=str(z)[:600],
                                  smt2=smt2)
             )
+        if os.environ.get("PYVC_TRACE"):
+            print(f"[oblige] {name}: {self.results[-1].verdict} {self.results[-1].backend} {self.results[-1].seconds:.2f}s", flush=True)
         if assume_after:
             self.pc.append(z)
             self.ghost["goal_facts"] = self.ghost.get("goal_facts", 0) + 1
